@@ -52,11 +52,27 @@ def r10_1(rep, M, rid):
                           "(beyond the cutoff) are reported as finite", M.where(FQ, b[2]))
         else:
             rep.violation(rid, f"wrapper: buffer for C++ `{p}`", f"`{nm}` is not a {dims}-dimensional np.full(..., inf) buffer", M.where(FQ, call))
+    at = fl.node_of(call)
     for p in ("positions", "cell", "cutoff", "return_factors", "return_distances"):
-        if norm(a[p]) == p:
-            rep.ok(rid, f"wrapper: `{p}` passed through")
-        else:
+        if norm(a[p]) != p:
             rep.violation(rid, f"wrapper: argument `{p}`", f"C++ parameter `{p}` receives `{norm(a[p])}`", M.where(FQ, call))
+            continue
+        # the value reaching the extension is the caller's, or the documented default substituted under `is None`
+        bad = None
+        for d in fl.rd[at].get(p, ()):
+            if d == fl.cfg.entry:
+                continue
+            st = fl.cfg.stmt(d)
+            conds = fl.cfg.branch_conditions(d)
+            under_none = any(pol is True and isinstance(t, ast.If) and norm(t.test) == f"{p} is None" for t, pol in conds)
+            if not under_none:
+                bad = st
+        if bad is None:
+            rep.ok(rid, f"wrapper: `{p}` reaches the extension as given (or its documented default when None)")
+        else:
+            rep.violation(rid, f"wrapper: `{p}` rewritten before the extension", f"`{norm(bad)[:70]}` changes the caller's `{p}` inside the wrapper: "
+                          + ("pairs within the requested cutoff are reported infinite" if p == "cutoff" else "the tables no longer refer to the caller's geometry"),
+                          M.where(FQ, bad))
     if isinstance(a["pbc"], ast.Call) and (GEO + ".expand_pbc") in M.callees_of_call(FQ, a["pbc"]) and norm(a["pbc"].args[0]) == "pbc":
         rep.ok(rid, "wrapper: pbc normalised by expand_pbc")
     else:
